@@ -389,6 +389,7 @@ def run(chk):
     shared_sources(chk, rng)
     shared_item_control(chk, rng)
     callers_lists(chk, rng)
+    block_given_as_items(chk, rng)
 
 
 def container_fetches(chk, rng):
@@ -668,6 +669,33 @@ def callers_lists(chk, rng):
                                       dict(what, steps=list(log)), True)
                     if chk.n_found() >= 3:
                         return
+
+
+def block_given_as_items(chk, rng):
+    """a block handed to another block's constructor as the source of its items (OpticalSetupBlock(channels=other)): the new
+    block holds the same channel objects in a list of its own — editing either block's list leaves the other as it was"""
+    from basictdf.tdfOpticalSystem import OpticalSetupBlock
+    ad = Adapter("OS", rng)
+    for origin in ("constructed", "decoded"):
+        src = ad.new()
+        for _ in range(2):
+            ad.add(src)
+        if origin == "decoded":
+            src = ad.decode(api.encoded(src), src.format.value)
+        chk.note_case(("block given as items", origin), True)
+        chk.count("a block given to a constructor as its item source")
+        what = {"kind": "OS", "scenario": "b = OpticalSetupBlock(channels=a) with a %s block a" % origin}
+        try:
+            new = OpticalSetupBlock(channels=src)
+        except Exception:
+            continue                      # refusing a block as an item list is fine
+        for desc, act, victim in (("a channel is appended to a", lambda: ad.add(src), new), ("the first channel is removed from b", lambda: ad.remove(new, 0), src),
+                                  ("a's channel list is reversed", lambda: src.channels.reverse(), new)):
+            before = ([id(x) for x in ad.items(victim)], sha(victim))
+            act()
+            if ([id(x) for x in ad.items(victim)], sha(victim)) != before:
+                chk.violation("C20 OS: %s: after '%s' the other block changed too" % (what["scenario"], desc), dict(what, step=desc), True)
+                return
 
 
 def shared_item_control(chk, rng):
